@@ -103,3 +103,71 @@ def stmt_reading_field(F, fid, adt, field):
             if st[1] == "=" and needle in json.dumps(st[3]):
                 return (bi, si)
     return None
+
+
+def placeholder_full_rule(rep, F):
+    """add_inputs_from_and_change_with_collateral_return fixes change and fee against a *placeholder* collateral return; the placeholder
+    must be at least as large as the real return, i.e. carry the collateral's full value (every asset), not a projection of it."""
+    import fieldflow as ff
+    rep.rule("PLACEHOLDER-full", "the placeholder collateral-return output used while change and fee are computed is built from the full collateral value (all assets): its value operand derives from TransactionBuilder.collateral and passes through no coin projection (Value::coin / Value::new)")
+    fid = find_fn(rep, F, "TransactionBuilder::add_inputs_from_and_change_with_collateral_return")
+    if not fid:
+        return
+    fn = F.fns[fid]
+    org = ff.Origins(F, fid)
+    sets = [c for c in F.calls(fid) if (c.to or "").endswith("TransactionBuilder::set_collateral_return")]
+    news = [c for c in F.calls(fid) if (c.to or "").endswith("TransactionOutput::new")]
+    if not sets or not news:
+        rep.lost("placeholder collateral return (set_collateral_return(TransactionOutput::new(..))) not found in add_inputs_from_and_change_with_collateral_return")
+        return
+    first_set = min(sets, key=lambda c: c.bb)
+    o_set = org.of_operand(fn["bbs"][first_set.bb]["t"][3][1])
+    for c in news:
+        if not any(x == "call:%s@%d" % (c.to, c.bb) for x in o_set):
+            continue
+        rep.inst("PLACEHOLDER-full")
+        o = org.of_operand(fn["bbs"][c.bb]["t"][3][1])
+        if "field:builders::tx_builder::TransactionBuilder.collateral" not in o:
+            rep.violation("PLACEHOLDER-full", "not-from-collateral", "the placeholder collateral return's value does not derive from the collateral inputs", {})
+        proj = sorted({x.split("@")[0][5:] for x in o if x.startswith("call:") and (x.split("@")[0].endswith("Value::coin") or x.split("@")[0].endswith("Value::new") or x.split("@")[0].endswith("::coin"))})
+        if proj:
+            rep.violation("PLACEHOLDER-full", "projected|%s" % ",".join(H_short(p) for p in proj), "the placeholder collateral return is built from a projection of the collateral value (%s): with token-carrying collateral the real return output is larger than the placeholder the fee was fixed against" % ", ".join(H_short(p) for p in proj), {})
+
+
+def H_short(p):
+    return "::".join(p.split("::")[-2:])
+
+
+def direct_call_of(fn, op, limit=8):
+    """follow `_x = use _y` / `?`-Continue projections of single-definition locals back to the call that produced the value; -> bb of the call or None"""
+    defs = {}
+    for bi, bb in enumerate(fn["bbs"]):
+        for st in bb["st"]:
+            if st[1] == "=":
+                defs.setdefault(st[2], []).append(("st", st[3], bi))
+        t = bb["t"]
+        if t[1] == "call":
+            defs.setdefault(t[4], []).append(("call", t, bi))
+    cur = op[1] if op[0] in ("c", "m") else None
+    for _ in range(limit):
+        if cur is None:
+            return None
+        base = cur.split("|")[0]
+        ds = defs.get(cur) or (defs.get(base) if "|d:Continue" in cur else None)
+        if not ds or len(ds) != 1:
+            return None
+        kind, x, bi = ds[0]
+        if kind == "call":
+            to = x[2].get("to") or ""
+            if to.endswith("Try>::branch"):
+                a = x[3][0]
+                cur = a[1] if a[0] in ("c", "m") else None
+                continue
+            return bi, to
+        if x[0] == "use" and x[1][0] in ("c", "m"):
+            cur = x[1][1]
+            continue
+        return None
+    return None
+
+
